@@ -67,6 +67,7 @@ def predicted_cases():
         'chain3': {0: [1], 1: [2], 2: []}, 'diamond': {0: [1, 2], 1: [3], 2: [3], 3: []}, 'self': {0: [0]}, 'cycle2': {0: [1], 1: [0]}, 'cycle3': {0: [1], 1: [2], 2: [0]},
         'tail-into-cycle': {0: [1], 1: [2], 2: [1]}, 'two-cycles': {0: [1, 2], 1: [0], 2: [0]}, 'chain40': {i: ([i + 1] if i < 39 else []) for i in range(40)},
         'dangling': {0: [1, 9], 1: []},
+        'isolated-cycle': {0: [], 1: [2], 2: [1]}, 'doubled-edge': {0: [1, 1], 1: []}, 'doubled-edge-cycle': {0: [1, 1], 1: [2], 2: [2, 0, 0]},
     }
     inp = '  <inputData name="i0" id="_i0"><variable name="i0" typeRef="number"/></inputData>\n'
     for name, g in graphs.items():
@@ -216,17 +217,18 @@ def run(ctx):
     ctx.sample({'predicted': pc[3][0], 'model_term': pc[3][4]})
     ctx.sample({'fault': stats['first_fault']})
     return ctx.finish(
-        rule='generated models with a predicted outcome (requirement graphs: chains, diamond, self loop, 2- and 3-cycles, tail into a cycle, dangling reference — between decisions and between '
+        rule='generated models with a predicted outcome (requirement graphs: chains, diamond, self loop, 2- and 3-cycles, tail into a cycle, a cycle nothing else refers to, doubled requirements, dangling reference — between decisions and between '
              'knowledge models; rings of length 1..5 entered directly, through tails and with exits; item definition cycles through components nested 1..4 deep, through collections and references; tables whose second rule has one entry less / more than the input or output clauses; item definitions referring to themselves directly, mutually and through '
              'components); every .dmn under examples/src unchanged; single structural faults at sampled (quick) or all (thorough) positions: delete / duplicate / empty / swap of every element, '
              'delete / empty / garble of every attribute and text node, every href retargeted to a missing element, its own element, an ancestor, or stripped of #; pairs of faults (thorough); '
              'random byte corruption.  Every invocable of the (faulted) model is evaluated with an empty context and with all inputs bound.  non-trivial = the faulted model still builds',
         extra_cov={'exhaustive': False, 'builds': ['debug', 'release'], 'example_files': len(files), 'fault_sites_x_faults_available': n_sites, 'faults_run_per_build': stats['n_faults'],
                    'fault_histogram': fault_hist, 'outcome_classes(both builds)': classes, 'per_request': '8 MiB stack thread, catch_unwind per phase, %d ms limit, process death observed' % LIMIT_MS},
-        assumptions=['a numbering of the nodes decreasing along requirements exists iff the requirement graph is acyclic (the theorems take the numbering as hypothesis)',
-                     'the stack holds at least |nodes| frames of the builder recursion'],
+        assumptions=['the stack holds more frames of the builder recursion than the requirement graph has rows (length (deps d) < fuel); no numbering is assumed any more: a model that passes the check has one (C12_passed_check_numbering)',
+                     'the recursion of the builders and evaluators follows only references that are edges of the graph check_cyclic_dependencies collects'],
         trusted=['PARTIAL: roxmltree, the real stack size, FEEL parsing/evaluation of the texts inside a model are not modelled; observed by the fault-injection run only',
-                 'the cycle search (depth-first, explicit stack) is proved exact only by a finite sweep over all graphs with at most 3 nodes; its tie to check_cyclic_dependencies is the predicted-outcome run',
+                 'the cycle search (depth-first, explicit stack) is proved exact for every graph (C12_cycle_check_exact); its tie to check_cyclic_dependencies, and the tie of the collected graph to the references the builders '
+                 'and evaluators really follow, is the predicted-outcome run (reported gap: the input decisions of a decision service are evaluated by the service but are not edges of the collected graph, NOTES-C12.md)',
                  'harness dv guard + dv model (owner builder-dt)'])
 
 
@@ -249,8 +251,12 @@ MANIFEST = dict(
     technique='Coq proof over an abstract Definitions model with explicit Crash/Diverge outcomes (table clause/entry counts, requirement and type-reference graph, depth-first cycle search); '
               'fault injection through the real loader/builder/evaluator in guarded threads / child processes, debug and release builds',
     text="PARTIAL. Proved (coq/Props/C12.v, closed under the global context): building a decision table is Ok or Err for all clause and entry counts, Ok exactly when every rule matches the clauses, and evaluation never indexes an empty result; "
-         "for every acyclic requirement graph (given by a decreasing numbering) build and evaluation end with Ok/Err within rank+1 stack frames; on EVERY cyclic graph the recursion of the builders cannot end for any stack size, so the pinned code "
-         "aborts on every cyclic model — the cycle search placed in front of it is exact on all 4164 graphs with up to 3 nodes (finite sweep); item definitions are trees of any depth: the collected type references are exactly the references occurring anywhere in the tree, so a self reference through components of any depth is a cycle of the searched graph. The four confirmed defects of the pinned commit are refuted by witnesses and fixed (2 commits). "
-         "Not modelled, only observed: roxmltree, the real stack, the FEEL texts inside models. Fault injection: every example model plus ~6000 (quick) / all ~169k (thorough) single structural faults, pairs of faults, byte corruption; parse -> ModelEvaluator::new -> every invocable, both builds.",
+         "the cycle search of check_cyclic_dependencies (depth-first, explicit stack; model dfs_loop/dfs_all) is EXACT on every graph of any size (C12_cycle_check_exact: it ends within its fuel, reports a cycle iff some node of the collected graph is on a cycle, "
+         "otherwise returns; invariant white/grey/black with the finishing order as topological numbering; duplicate rows and targets, self references, dangling targets and any order of rows included); hence, with no numbering assumed (C12_total): "
+         "every model with a cycle is rejected with an error before any recursion, and every other model builds to Ok/Err (decided by its tables alone) and every invocable of a built model evaluates, with a stack of more frames than the graph has rows; "
+         "on EVERY cyclic graph the recursion of the builders cannot end for any stack size, so the pinned code aborts on every cyclic model; item definitions are trees of any depth: the collected type references are exactly the references occurring anywhere "
+         "in the tree, so a self reference through components of ANY depth is a cycle of the searched graph and is found. The four confirmed defects of the pinned commit are refuted by witnesses and fixed (2 commits). "
+         "Not modelled, only observed: roxmltree, the real stack, the FEEL texts inside models, and which references the builders/evaluators follow (the model takes them to be the edges the check collects). "
+         "Fault injection: every example model plus ~6000 (quick) / all ~169k (thorough) single structural faults, pairs of faults, byte corruption; parse -> ModelEvaluator::new -> every invocable, both builds.",
     note='Trusted: Coq kernel + vm_compute, hand-written abstract model (tied by predicted-outcome models), harness dv guard/dv model, Python fault injector (xml.etree). '
          'A panic, abort, stack overflow or hang at parse, build or evaluation of any faulted model is a VIOLATION with the model text as replay.')
